@@ -66,14 +66,38 @@ inline Mat from_components(int d, const V& c) {
   }
   return m;
 }
-// components of a (Hermitian) matrix: c_0 = Tr(M)/d, c_k = Tr(M lambda_k)/2
-inline std::vector<real> to_components_l(const Mat& m) {
+// components of a (Hermitian) matrix: c_0 = Tr(M)/d, c_k = Tr(M lambda_k)/2 (the definition;
+// used to cross-check the fast version below once per process)
+inline std::vector<real> to_components_by_trace(const Mat& m) {
   int d = m.n;
   std::vector<real> c((size_t)d * d);
   for (int k = 0; k < d * d; k++) {
     cx t = trace(m * basis(d, k));
     c[k] = (k == 0) ? t.real() / d : t.real() / 2;
   }
+  return c;
+}
+// the same numbers read off entry by entry: Tr(M S_ij)/2 = Re M(i,j), Tr(M A_ij)/2 = -Im M(j,i)
+// for the antisymmetric generator stored at k=d*i+j (i>j), and the diagonal generators only see
+// the diagonal.
+inline std::vector<real> to_components_l(const Mat& m) {
+  int d = m.n;
+  std::vector<real> c((size_t)d * d);
+  real tr = 0;
+  for (int i = 0; i < d; i++) tr += m(i, i).real();
+  c[0] = tr / d;
+  for (int i = 0; i < d; i++)
+    for (int j = 0; j < d; j++) {
+      if (i < j) c[d * i + j] = (m(i, j).real() + m(j, i).real()) / 2;
+      else if (i > j) c[d * i + j] = (m(i, j).imag() - m(j, i).imag()) / 2;
+      else if (i > 0) {
+        int l = i;
+        real co = std::sqrt((real)2 / ((real)l * (l + 1))), s = 0;
+        for (int q = 0; q < l; q++) s += co * m(q, q).real();
+        s += -co * l * m(l, l).real();
+        c[d * i + j] = s / 2;
+      }
+    }
   return c;
 }
 inline std::vector<double> to_components(const Mat& m) {
